@@ -173,6 +173,9 @@ func (s *scanner) setPaging(query ast.Query) {
 		query.SetSkip(0)
 	}
 	s.targetOffset = *query.GetSkip()
+	if s.targetOffset < 0 { // a negative skip means no rows are skipped
+		s.targetOffset = 0
+	}
 
 	if query.GetLimit() == nil || *query.GetLimit() < 0 {
 		query.SetLimit(math.MaxInt64)
